@@ -82,6 +82,7 @@ type Runner struct {
 	ReplayFn  func(v *Viol) (reproduced bool, detail string)
 	distinct  sync.Map
 	distinctN atomic.Int64
+	harnessErrs []string
 	// MC: report the model-checking evidence keys (states, transitions, traces) from the counters of the same names.
 	MC bool
 	// MaxWorkers limits the parallelism of following sweeps (0 = all workers).
@@ -202,6 +203,16 @@ func (w *Worker) End() {
 	if s := w.R.slots; s != nil && w.ID < 64 {
 		off := w.ID * slotSize
 		s[off], s[off+1] = 0, 0
+	}
+}
+
+// HarnessError records a fault of the checking machinery itself (never a property violation).
+func (w *Worker) HarnessError(msg string) {
+	r := w.R
+	r.mu.Lock()
+	defer r.mu.Unlock()
+	if len(r.harnessErrs) < 5 {
+		r.harnessErrs = append(r.harnessErrs, msg)
 	}
 }
 
@@ -544,6 +555,10 @@ func (r *Runner) finish(aborted bool) int {
 		r.Property, r.Tier, evals, nontriv, len(confirmed), len(knownSeen), r.Exhaust && !aborted, time.Since(r.Start).Seconds())
 	for _, c := range r.capsHit {
 		fmt.Printf("  cap: %s\n", c)
+	}
+	for _, h := range r.harnessErrs {
+		fmt.Fprintf(os.Stderr, "CHECK-ERROR %s\n", h)
+		harnessErr = true
 	}
 	if len(confirmed) > 0 {
 		return 1
